@@ -367,6 +367,50 @@ func (eng *Engine) initReflect() {
 		}
 		return appendTo(e, sv, add)
 	}
+	s["reflect.Copy"] = func(e *Exec, _ *frame, _ *ssa.Function, args []Value) Value {
+		dv, sv := args[0].(*RVal), args[1].(*RVal)
+		var dst, src []Value
+		switch d := e.rget(dv).(type) {
+		case Slice:
+			dst = d.c
+		case *ArrObj:
+			if !dv.addr {
+				e.reflectPanic("reflect.Copy: unaddressable array value")
+			}
+			dst = (*dv.ptr.cell).(*ArrObj).cells
+		default:
+			e.reflectPanic("reflect.Copy: destination is neither slice nor array")
+		}
+		switch sx := e.rget(sv).(type) {
+		case Slice:
+			src = sx.c
+		case *ArrObj:
+			src = sx.cells
+		case *StrV:
+			for _, b := range sx.b {
+				src = append(src, b)
+			}
+		default:
+			e.reflectPanic("reflect.Copy: source is neither slice, array nor string")
+		}
+		n := len(dst)
+		if len(src) < n {
+			n = len(src)
+		}
+		tmp := make([]Value, n)
+		for i := 0; i < n; i++ {
+			tmp[i] = copyVal(src[i])
+		}
+		copy(dst, tmp)
+		return e.tc.BV(uint64(n), 64)
+	}
+	s["reflect.PointerTo"] = func(e *Exec, _ *frame, _ *ssa.Function, args []Value) Value {
+		return e.mkRType(types.NewPointer(rtypeOf(args[0])))
+	}
+	s["reflect.PtrTo"] = s["reflect.PointerTo"]
+	s["reflect.SliceOf"] = func(e *Exec, _ *frame, _ *ssa.Function, args []Value) Value {
+		return e.mkRType(types.NewSlice(rtypeOf(args[0])))
+	}
 	s["reflect.AppendSlice"] = func(e *Exec, _ *frame, _ *ssa.Function, args []Value) Value {
 		t, _ := e.rget(args[1].(*RVal)).(Slice)
 		return appendTo(e, args[0].(*RVal), t.c)
@@ -520,6 +564,51 @@ func (eng *Engine) initReflect() {
 		}
 		return &RVal{t: f.Type(), val: v.val.(Struct)[i], ro: ro, ero: ero}
 	})
+	vm("FieldByIndex", func(e *Exec, v *RVal, args []Value) Value {
+		idx, _ := args[0].(Slice)
+		field := e.eng.stubs["(reflect.Value).Field"]
+		for k, ix := range idx.c {
+			if k > 0 && rkind(v.t) == reflect.Pointer {
+				if pv, ok := e.rget(v).(Ptr); ok && pv.cell == nil && pv.sym == nil {
+					e.reflectPanic("reflect: indirection through nil pointer to embedded struct")
+				}
+				v = e.rElem(v).(*RVal)
+			}
+			v = field(e, nil, nil, []Value{v, ix}).(*RVal)
+		}
+		return v
+	})
+	vm("FieldByName", func(e *Exec, v *RVal, args []Value) Value {
+		st, ok := under(v.t).(*types.Struct)
+		if !ok {
+			e.reflectPanic("call of reflect.Value.FieldByName on " + rkind(v.t).String() + " Value")
+		}
+		name, conc := args[0].(*StrV).conc()
+		if !conc {
+			e.unsupported("reflect.Value.FieldByName with a symbolic name")
+		}
+		_ = st
+		var pkg *types.Package
+		if nt, ok := v.t.(*types.Named); ok {
+			pkg = nt.Obj().Pkg()
+		}
+		obj, index, _ := types.LookupFieldOrMethod(v.t, true, pkg, name)
+		fv, isField := obj.(*types.Var)
+		if !isField || !fv.IsField() {
+			return &RVal{}
+		}
+		field := e.eng.stubs["(reflect.Value).Field"]
+		for k, ix := range index {
+			if k > 0 && rkind(v.t) == reflect.Pointer {
+				if pv, ok := e.rget(v).(Ptr); ok && pv.cell == nil && pv.sym == nil {
+					e.reflectPanic("reflect: indirection through nil pointer to embedded struct")
+				}
+				v = e.rElem(v).(*RVal)
+			}
+			v = field(e, nil, nil, []Value{v, e.tc.BV(uint64(ix), 64)}).(*RVal)
+		}
+		return v
+	})
 	vm("Index", func(e *Exec, v *RVal, args []Value) Value {
 		idx := args[0].(*Term)
 		x := e.rget(v)
@@ -590,6 +679,35 @@ func (eng *Engine) initReflect() {
 			e.reflectPanic("reflect.Value." + what + " using value obtained using unexported field")
 		}
 	}
+	vm("SetZero", func(e *Exec, v *RVal, _ []Value) Value {
+		mustSet(e, v, "SetZero")
+		e.store(v.ptr, e.zero(v.t))
+		return nil
+	})
+	vm("Grow", func(e *Exec, v *RVal, args []Value) Value {
+		mustSet(e, v, "Grow")
+		sl, ok := e.rget(v).(Slice)
+		if !ok {
+			e.reflectPanic("call of reflect.Value.Grow on " + rkind(v.t).String() + " Value")
+		}
+		nt := args[0].(*Term)
+		if e.Decide(e.tc.Cmp(OpSlt, nt, e.tc.BV(0, 64))) {
+			e.reflectPanic("reflect.Value.Grow: negative len")
+		}
+		n := int(e.Concretize(nt, true, "length"))
+		if len(sl.c)+n <= cap(sl.c) {
+			return nil
+		}
+		et := under(v.t).(*types.Slice).Elem()
+		nc := growCap(cap(sl.c), len(sl.c)+n, sizeofT(et))
+		if nc > e.eng.maxAlloc {
+			e.endPath(stBound, "reflect.Value.Grow allocation")
+		}
+		ao := e.newArr(nc, et, true)
+		copy(ao.cells, sl.c)
+		e.store(v.ptr, Slice{c: ao.cells[:len(sl.c)], obj: ao})
+		return nil
+	})
 	vm("Set", func(e *Exec, v *RVal, args []Value) Value {
 		mustSet(e, v, "Set")
 		x := args[0].(*RVal)
